@@ -149,7 +149,7 @@ fn bin_routes(l: SimpleExpr, op: BinOper, rx: &X) -> SimpleExpr {
     let r = rx.build();
     let which = crate::apply::route(5);
     if which == 0 {
-        return l.binary(op, r);
+        return if crate::apply::route(2) == 0 { Expr::expr(l).binary(op, r) } else { l.binary(op, r) };
     }
     // comparisons against a column have their own spelling
     if which == 4 {
@@ -477,7 +477,16 @@ impl X {
                     (false, _) => ExprTrait::in_subquery(e.build(), crate::apply::sel(s)),
                 }
             }
-            X::Scalar(s) => SimpleExpr::SubQuery(None, Box::new(crate::apply::sel(s).into_sub_query_statement())),
+            X::Scalar(s) => match (&s.with, crate::apply::route(2)) {
+                // the sub-query's WITH clause attached from outside: a `WithQuery` as the sub-query statement
+                (Some(w), 0) => {
+                    let mut body = (**s).clone();
+                    body.with = None;
+                    let wq = crate::apply::with_clause(w).query(crate::apply::sel(&body));
+                    SimpleExpr::SubQuery(None, Box::new(wq.into_sub_query_statement()))
+                }
+                _ => SimpleExpr::SubQuery(None, Box::new(crate::apply::sel(s).into_sub_query_statement())),
+            },
             X::SubOp(e, op, kind, s) => {
                 let q = crate::apply::sel(s);
                 let sub = match kind {
